@@ -400,12 +400,12 @@ func drawPkt(rng *hx.RNG) Pkt {
 	}
 	hdr := 4 * p.IHL
 	switch r := rng.Intn(100); {
-	case r < 60:
+	case r < 62:
 		p.Len = hdr + 14 + rng.Intn(30)
-	case r < 85:
-		p.Len = hdr - 2 + rng.Intn(18) // around every transport limit
+	case r < 94:
+		p.Len = hdr - 1 + rng.Intn(17) // around every transport limit
 	default:
-		p.Len = rng.Intn(hdr + 20)
+		p.Len = rng.Intn(hdr + 20) // anything, including less than the fixed header
 	}
 	if p.Proto == protoTCP || p.Proto == protoUDP {
 		p.Sport, p.Dport = drawPort(rng), drawPort(rng)
